@@ -118,6 +118,7 @@ const IDS: &[&str] = &["id:1", "x id:10 y", "id:9", "  id:10", "nomatch", "", "i
 const KS: &[&str] = &["ka", "kb", "kab", " ka", "kB", "k", "ka b"];
 const PINS: &[&str] = &["p:b", "a", "p:a", "c", "", "p:", " a", "p:c", "b"];
 const TRAIL: &[&str] = &["a 2", "b 10", "c 9", "d 10", "", "x", "  e 2"];
+const KJ: &[&str] = &["k 7", "j 7", "k 10", "j 2", "x", "", "  k 3  "];
 const TINY: &[&str] = &["0.0000000000000003", "0.0000000000000001", "1", "1.0000000000000002", "0", "-0.0000000000000002"];
 const DIRS: &[Option<&str>] = &[None, Some(""), Some("asc"), Some("ASC"), Some("desc"), Some("Desc")];
 
@@ -140,6 +141,8 @@ pub fn enumerated(max_len: usize, batch: usize) -> Vec<KsBatch> {
         (Some("^p:(?P<value>[a-z]+)$|^[a-z]+$"), None, PINS),
         // a pattern anchored at the line end (CRLF batches: the terminator is not part of the line)
         (Some("[0-9]+$"), Some("numeric"), TRAIL),
+        // an ordinary capturing group in front of the `value` group
+        (Some("(k|j) (?P<value>[0-9]+)"), Some("numeric"), KJ),
         // numbers one unit in the last place apart, or below every plausible tolerance: still strictly ordered
         (None, Some("numeric"), TINY),
     ];
